@@ -552,6 +552,7 @@ func (w *World) bootReplica(idx int) *Replica {
 		jw = &spyJWKS{w: w, inner: r.jwks}
 	} else {
 		fac = &yieldFactory{w: w, inner: r.sessions}
+		jw = &gateJWKS{w: w, inner: r.jwks}
 	}
 	r.filter = server.NewExtAuthZFilter(r.cfg, r.tlsPool, jw, fac)
 	if w.Spec.HandlerMode && idx == 0 {
@@ -944,6 +945,28 @@ func (j *spyJWKS) Get(ctx context.Context, cfg *oidcv1.OIDCConfig) (jwk.Set, err
 		}
 	}
 	return set, err
+}
+
+// gateJWKS (race build): one task at a time inside the key provider, nothing recorded. Plain memory only: the
+// gate adds no happens-before edge between tasks.
+type gateJWKS struct {
+	w     *World
+	inner oidc.JWKSProvider
+}
+
+func (j *gateJWKS) Get(ctx context.Context, cfg *oidcv1.OIDCConfig) (jwk.Set, error) {
+	w := j.w
+	task := w.taskOf(ctx)
+	g := &spyJWKS{w: w}
+	for g.enter() {
+		w.Sim.YieldAs(task, "jwks:wait")
+		w.Sim.SetCur(task)
+	}
+	defer func() {
+		g.leave()
+		w.Sim.SetCur(task)
+	}()
+	return j.inner.Get(ctx, cfg)
 }
 
 // enter reports whether the provider is busy; if not, it marks it busy.
@@ -1398,7 +1421,7 @@ func (w *World) buildSharedHandlers() {
 	var fac oidc.SessionStoreFactory = &spyFactory{w: w, inner: w.Rep.sessions}
 	var jw oidc.JWKSProvider = &spyJWKS{w: w, inner: w.Rep.jwks}
 	if w.Lean {
-		fac, jw = &yieldFactory{w: w, inner: w.Rep.sessions}, w.Rep.jwks
+		fac, jw = &yieldFactory{w: w, inner: w.Rep.sessions}, &gateJWKS{w: w, inner: w.Rep.jwks}
 	}
 	if w.handlers == nil {
 		w.handlers = map[*Replica]map[int]authz.Handler{}
